@@ -35,6 +35,7 @@ import (
 	"time"
 
 	"github.com/oauth2-proxy/oauth2-proxy/v7/pkg/clock"
+	"github.com/oauth2-proxy/oauth2-proxy/v7/pkg/requests"
 )
 
 const c09Future = 5 * time.Minute
@@ -77,6 +78,9 @@ type c09Ctx struct {
 	w    *vfWorld
 	seq  int64
 	name string // session cookie name
+	// failed-refresh phase: the IdP is scripted to fail the refresh conversation of the next probe
+	fault  string        // name of the scripted failure ("" = none): no grant is possible, service of the faulted request itself is not judged
+	giveUp time.Duration // the client of the proxy walks away after this long (request context cancelled)
 }
 
 type c09SetCookie struct {
@@ -367,6 +371,9 @@ func (c *c09Ctx) probe(cr *c09Cred, channel string, mock *time.Time) c09Result {
 	in := cr.Sess.In
 	id := fmt.Sprintf("c09-%d", atomic.AddInt64(&c.seq, 1))
 	req := vfGET(channel, "Cookie", cr.Cookie, "X-Vf-Id", id)
+	if c.giveUp > 0 {
+		req.GiveUpAfter = c.giveUp
+	}
 	_, grants0 := c.w.IdP.RefreshGrants() // sequential driver: refresh grants between the two readings belong to this request
 	if mock != nil {
 		clock.Set(*mock)
@@ -405,6 +412,9 @@ func (c *c09Ctx) probe(cr *c09Cred, channel string, mock *time.Time) c09Result {
 		}
 	}
 	want, cell := c09Want(cr, t0, t1)
+	if c.fault != "" && want == "accept" {
+		want, cell = "unjudged", "" // whether a session is served while its refresh fails is C12/C14's business
+	}
 	pr := c09Probe{Inst: in.String(), Origin: cr.Sess.Origin, Kind: cr.Kind, Old: cr.Old, Stamp: cr.S.UTC().Format(time.RFC3339), T0: t0.UTC().Format(time.RFC3339Nano), T1: t1.UTC().Format(time.RFC3339Nano),
 		AgeAtT0: t0.Sub(cr.S).String(), Expire: in.Expire.String(), Channel: channel, Status: resp.Code, Outcome: outcome, Want: want, Note: cr.Note}
 	if mock != nil {
@@ -419,7 +429,7 @@ func (c *c09Ctx) probe(cr *c09Cred, channel string, mock *time.Time) c09Result {
 		c.run.Count("refresh_reissues", 1)
 		c.checkTTL(cr.Sess, where, req)
 		nc := &c09Cred{Sess: cr.Sess, Cookie: c09CookieHeader(sets)}
-		if _, grants1 := c.w.IdP.RefreshGrants(); grants1 == grants0 {
+		if _, grants1 := c.w.IdP.RefreshGrants(); grants1 == grants0 || c.fault != "" {
 			// the session was re-issued although the identity provider granted no refresh during this request: nothing was
 			// refreshed, so the lifetime still counts from the last REAL (re)issue — the new cookie inherits the old stamp
 			nc.S, nc.Kind = cr.S, "reissued-without-refresh-grant"
@@ -614,6 +624,7 @@ func TestVerif_C09(t *testing.T) {
 
 	c09Grid(c, insts)
 	pending := c09RefreshHistories(c, insts)
+	pending = append(pending, c09FailedRefresh(c, insts)...)
 	c09Timeline(c, pending)
 	c09StoreExpiry(c, t)
 	c09NegativeLifetime(c, t)
@@ -840,6 +851,142 @@ func c09RefreshHistories(c *c09Ctx, insts []*c09Inst) []*c09Cred {
 				pending = append(pending, cr)
 				break
 			}
+		}
+		c.w.Up.Reset()
+	}
+	return pending
+}
+
+// ---------------------------------------------------------------------------------------------------------
+// phase B2: refresh attempts that FAIL at the identity provider restart nothing
+//
+// A stale session (older than cookie-refresh, tokens long-lived so that the local validation still passes) is used while
+// the token endpoint fails in every way the fake IdP can script: 5xx, connection reset, invalid_grant, malformed / empty
+// JSON, a stall the proxy's own HTTP client times out on (requests.DefaultHTTPClient.Timeout is set for that one request:
+// a genuine net/http timeout error, Timeout() == true, errors.Is(DeadlineExceeded)), and a stall during which the
+// proxy's client walks away (request context cancelled). Nothing was refreshed, so whatever the response re-issues keeps
+// the window of the ORIGINAL stamp ("reissued-without-refresh-grant": rejection demanded from T+expire on) — the
+// timeline then follows both the original and any re-issued credential across T+expire.
+
+type c09Fault struct {
+	Name    string
+	Reply   func() *vfIdPReply
+	Timeout time.Duration // client timeout of the proxy's IdP HTTP client during the request
+	GiveUp  time.Duration
+	Slow    bool
+}
+
+func c09Faults() []c09Fault {
+	js := func(status int, body string) func() *vfIdPReply {
+		return func() *vfIdPReply {
+			return &vfIdPReply{Status: status, ContentType: "application/json", Body: []byte(body)}
+		}
+	}
+	return []c09Fault{
+		{Name: "idp-client-timeout", Slow: true, Timeout: 250 * time.Millisecond, Reply: func() *vfIdPReply { return &vfIdPReply{Stall: 3 * time.Second, Reset: true} }},
+		{Name: "stall-client-gives-up", Slow: true, GiveUp: 250 * time.Millisecond, Reply: func() *vfIdPReply { return &vfIdPReply{Stall: 3 * time.Second, Reset: true} }},
+		{Name: "500", Reply: js(500, `{"error":"server_error"}`)},
+		{Name: "503-html", Reply: func() *vfIdPReply {
+			return &vfIdPReply{Status: 503, ContentType: "text/html", Body: []byte("<html>busy</html>")}
+		}},
+		{Name: "reset", Reply: func() *vfIdPReply { return &vfIdPReply{Reset: true} }},
+		{Name: "invalid_grant", Reply: js(400, `{"error":"invalid_grant"}`)},
+		{Name: "malformed-json", Reply: js(200, `{"access_token":"a","token_type":"Bearer","id_token":`)},
+		{Name: "empty-200", Reply: js(200, ``)},
+		{Name: "429", Reply: js(429, `{"error":"temporarily_unavailable"}`)},
+	}
+}
+
+func c09FailedRefresh(c *c09Ctx, insts []*c09Inst) []*c09Cred {
+	var pending []*c09Cred
+	faults := c09Faults()
+	thorough := c.run.Env.Thorough()
+	var order []*c09Inst
+	for _, in := range insts { // the shortest lifetimes last: their credentials must still be alive when the timeline starts
+		if in.Refresh > 0 && in.Expire > 10*time.Second {
+			order = append(order, in)
+		}
+	}
+	for _, in := range insts {
+		if in.Refresh > 0 && in.Expire <= 10*time.Second {
+			order = append(order, in)
+		}
+	}
+	chn := int(c.run.Env.Seed)
+	for ii, in := range order {
+		for fi, f := range faults {
+			if !thorough {
+				if f.Slow && (in.Large || (f.GiveUp > 0 && (ii+int(c.run.Env.Seed))%3 != 0)) {
+					continue
+				}
+				if !f.Slow && (fi+ii+int(c.run.Env.Seed))%3 != 0 {
+					continue
+				}
+			}
+			now := time.Now().Truncate(time.Second)
+			var T time.Time
+			var mock *time.Time
+			if in.Expire <= 10*time.Second {
+				T = now.Add(-in.Refresh - time.Second) // stale in real time
+			} else {
+				T = now.Add(-in.Expire + 4*time.Second)
+				M := T.Add(in.Refresh + time.Second) // one refresh period on (mocked pkg/clock during the request)
+				mock = &M
+			}
+			cr, err := c.issue(in, "oidc", T, 0)
+			if err != nil {
+				c.run.T.Fatalf("C09 rig: %s failed-refresh %s: %v", in, f.Name, err)
+			}
+			cr.Note = "failed refresh (" + f.Name + ")"
+			steps := 1
+			if f.Timeout > 0 || thorough {
+				steps = 2 // again one refresh period later, with whatever the first response re-issued
+			}
+			cur := cr
+			for step := 0; step < steps; step++ {
+				fired := int64(0)
+				rep := f.Reply
+				c.w.IdP.Set(func(cf *vfIdPCfg) {
+					cf.Hook = func(ev *vfIdPEvent) *vfIdPReply {
+						if ev.Kind == "token.refresh" {
+							atomic.AddInt64(&fired, 1)
+							return rep()
+						}
+						return nil
+					}
+				})
+				if f.Timeout > 0 {
+					requests.DefaultHTTPClient.Timeout = f.Timeout
+				}
+				c.fault, c.giveUp = f.Name, f.GiveUp
+				chn++
+				res := c.probe(cur, c09Channels[chn%len(c09Channels)], mock)
+				c.fault, c.giveUp = "", 0
+				requests.DefaultHTTPClient.Timeout = 0
+				c.w.IdP.Set(func(cf *vfIdPCfg) { cf.Hook = nil })
+				c.run.Count("failed_refresh_steps", 1)
+				if atomic.LoadInt64(&fired) > 0 {
+					c.run.Count("failed_refresh_steps_fired", 1)
+					c.run.Count("failed_refresh_"+f.Name, 1)
+				}
+				if res.Outcome == "accept" {
+					c.run.Count("failed_refresh_session_kept", 1)
+				}
+				if res.New == nil {
+					break
+				}
+				cur.Old = true
+				res.New.Note = cr.Note + fmt.Sprintf(" (re-issued at step %d)", step+1)
+				pending = append(pending, res.New)
+				cur = res.New
+				if mock != nil {
+					M2 := mock.Add(in.Refresh + time.Second)
+					mock = &M2
+				} else if step+1 < steps {
+					time.Sleep(in.Refresh + 100*time.Millisecond)
+				}
+			}
+			pending = append(pending, cr)
 		}
 		c.w.Up.Reset()
 	}
